@@ -164,6 +164,31 @@ func Follow() int {
 			}(g)
 		}
 	}
+	// burst issues a few of the leader's queries synchronously at the given heights (0 = latest): this places queries
+	// at exact points of the block cycle, which the free-running goroutines only hit by chance
+	var burstQs []QuerySpec
+	if v.Noisy {
+		if b, err := os.ReadFile(os.Getenv("C01_QUERIES")); err == nil {
+			_ = json.Unmarshal(b, &burstQs)
+		}
+	}
+	bi := 0
+	burst := func(heights ...int64) {
+		for _, h := range heights {
+			if h < 0 || len(burstQs) == 0 {
+				continue
+			}
+			for k := 0; k < 2; k++ {
+				q := burstQs[bi%len(burstQs)]
+				bi++
+				func() {
+					defer func() { _ = recover() }()
+					_, _ = app.Query(context.Background(), &abci.RequestQuery{Path: q.Path, Data: q.Data, Height: h})
+				}()
+				nq.Add(1)
+			}
+		}
+	}
 	code := 0
 	for i := start; i < len(blocks); i++ {
 		req := blocks[i]
@@ -189,9 +214,15 @@ func Follow() int {
 		if ferr != nil {
 			break
 		}
+		if v.Noisy { // synchronous burst between FinalizeBlock and Commit: queries on the states of older heights
+			burst(req.Height-1, req.Height-2, 0)
+		}
 		if _, err := app.Commit(); err != nil {
 			traces[len(traces)-1].Err = "commit: " + err.Error()
 			break
+		}
+		if v.Noisy { // ... and right after the commit
+			burst(req.Height-2, req.Height-1)
 		}
 	}
 	stop.Store(true)
